@@ -171,6 +171,9 @@ type World struct {
 	Resolvers [][]KV
 
 	stack []string
+	// home is the tree the expression being evaluated lives in (nil: Root). A value found in an Env config is
+	// evaluated with that Env config as home: its own references are looked up there first.
+	home *Node
 	// observations of the last evaluation
 	SawCycle     bool // a reference was re-entered (absorbed or not)
 	FromEnv      bool // a name was found in an Env config
@@ -213,6 +216,7 @@ func (e *ErrMsg) Error() string { return "model: error operator: " + e.Msg }
 
 func (w *World) Reset() {
 	w.stack = nil
+	w.home = nil
 	w.SawCycle, w.FromEnv, w.FromResolver, w.LeftUnset, w.Shadowed = false, false, false, false, false
 	w.Uses = nil
 	w.Absorbed = false
@@ -252,17 +256,28 @@ func (w *World) inResolvers(name string) bool {
 	return false
 }
 
-func (w *World) lookup(name string) (*Node, bool) {
-	if v, ok := lookupIn(w.Root, name); ok {
+// lookup finds name in the home tree of the expression being evaluated, then in the Env configs (most recently
+// added first). It also returns the tree the value was found in.
+func (w *World) lookup(name string) (*Node, *Node, bool) {
+	first := w.Root
+	if w.home != nil {
+		first = w.home
+	}
+	if v, ok := lookupIn(first, name); ok {
 		for _, e := range w.Envs {
-			if _, ok := lookupIn(e, name); ok {
-				w.Shadowed = true
+			if e != first {
+				if _, ok := lookupIn(e, name); ok {
+					w.Shadowed = true
+				}
 			}
 		}
 		if w.inResolvers(name) {
 			w.Shadowed = true
 		}
-		return v, true
+		if first != w.Root {
+			w.FromEnv = true
+		}
+		return v, first, true
 	}
 	for i := len(w.Envs) - 1; i >= 0; i-- {
 		if v, ok := lookupIn(w.Envs[i], name); ok {
@@ -275,10 +290,18 @@ func (w *World) lookup(name string) (*Node, bool) {
 			if w.inResolvers(name) {
 				w.Shadowed = true
 			}
-			return v, true
+			return v, w.Envs[i], true
 		}
 	}
-	return nil, false
+	return nil, nil, false
+}
+
+// at runs f with home as the tree of the expression being evaluated.
+func (w *World) at(home *Node, f func()) {
+	prev := w.home
+	w.home = home
+	f()
+	w.home = prev
 }
 
 func (w *World) resolver(name string) (string, bool) {
@@ -357,8 +380,11 @@ func (w *World) refEval(name string) (string, error) {
 	}
 	w.stack = append(w.stack, name)
 	defer func() { w.stack = w.stack[:len(w.stack)-1] }()
-	if v, ok := w.lookup(name); ok {
-		return w.evalToString(v)
+	if v, home, ok := w.lookup(name); ok {
+		var str string
+		var err error
+		w.at(home, func() { str, err = w.evalToString(v) })
+		return str, err
 	}
 	if s, ok := w.resolver(name); ok {
 		if s == "" {
@@ -425,8 +451,11 @@ func (w *World) evalToString(n *Node) (string, error) {
 			}
 			w.stack = append(w.stack, name)
 			defer func() { w.stack = w.stack[:len(w.stack)-1] }()
-			if rv, ok := w.lookup(name); ok {
-				return w.evalToString(rv)
+			if rv, home, ok := w.lookup(name); ok {
+				var str string
+				var err error
+				w.at(home, func() { str, err = w.evalToString(rv) })
+				return str, err
 			}
 			if str, err, ok := fromResolver(); ok {
 				return str, err
@@ -451,7 +480,7 @@ func (w *World) EvalString(n *Node) (string, error) { return w.evalToString(n) }
 
 func (w *World) refFound(name string) bool {
 	if !w.active(name) {
-		if _, ok := w.lookup(name); ok {
+		if _, _, ok := w.lookup(name); ok {
 			return true
 		}
 	}
@@ -610,8 +639,11 @@ func (w *World) Eval(n *Node) (interface{}, error) {
 			}
 			w.stack = append(w.stack, name)
 			defer func() { w.stack = w.stack[:len(w.stack)-1] }()
-			if rv, ok := w.lookup(name); ok {
-				return w.Eval(rv)
+			if rv, home, ok := w.lookup(name); ok {
+				var val interface{}
+				var err error
+				w.at(home, func() { val, err = w.Eval(rv) })
+				return val, err
 			}
 			if pv, err, ok := fromResolver(); ok {
 				return pv, err
@@ -645,6 +677,7 @@ type GCfg struct {
 	Depth    int
 	Names    []string
 	NoDollar bool // no '$' in literals (finding D27 open)
+	EnvExprs bool // Env configs may hold expressions
 }
 
 func (g *GCfg) lit(t *rapid.T) string {
@@ -773,11 +806,20 @@ func (g *GCfg) GenRoot(t *rapid.T) *Node {
 	return root
 }
 
-// GenEnv draws an Env config (literal values only).
+// GenEnv draws an Env config. With EnvExprs some of its values are expressions themselves: they are evaluated
+// with the Env config as their own tree (their references are looked up there first).
 func (g *GCfg) GenEnv(t *rapid.T) *Node {
 	e := &Node{K: "obj"}
 	for _, k := range []string{"e1", "e2", "both", "a", "zz"} {
 		if rapid.IntRange(0, 2).Draw(t, "envhas") == 0 {
+			// (e2 stays a literal: the name e2.p.q leads through it, and lookups through evaluated values are not modelled)
+			if g.EnvExprs && k != "e2" && rapid.IntRange(0, 2).Draw(t, "envexpr") == 0 {
+				// references inside an Env config mostly name settings of Env configs
+				eg := *g
+				eg.Names = []string{"a", "e1", "e2", "both", "zz", "a", "e1", "b", "r1"}
+				e.Put(k, eg.GenLeaf(t, true))
+				continue
+			}
 			e.Put(k, g.GenLeaf(t, false))
 		}
 	}
